@@ -304,7 +304,8 @@ def build(p, quiet=True, roundtrip=False) -> Built:
             for j, ui in enumerate(cu["units"]):
                 b.workers[ui - 1] = obj._cumulative_workers[j]
     for s in p["selects"]:
-        b.selects.append(ps.SelectWorkers(name=s["name"], list_of_workers=[b.workers[i - 1] for i in s["workers"]],
+        members = s.get("members") or [{"t": "worker", "i": i} for i in s["workers"]]
+        b.selects.append(ps.SelectWorkers(name=s["name"], list_of_workers=[resource(b, m) for m in members],
                                           nb_workers_to_select=s["n"], kind=s["kind"]))
     for r in p["reqs"]:
         t = b.tasks[r["task"] - 1]
